@@ -16,6 +16,34 @@ type GDInner struct {
 	V float32
 }
 
+// GDNode: a value that can contain itself.
+type GDNode struct {
+	Name string
+	Next *GDNode
+	Kids []any
+}
+
+func gdCycle(kind string) any {
+	switch kind {
+	case "ptr":
+		n := &GDNode{Name: "n"}
+		n.Next = n
+		return n
+	case "ptr2":
+		a, b := &GDNode{Name: "a"}, &GDNode{Name: "b"}
+		a.Next, b.Next = b, a
+		return GDNode{Name: "root", Next: a}
+	case "map":
+		m := map[string]any{"k": 1}
+		m["self"] = m
+		return m
+	default:
+		sl := []any{1, nil}
+		sl[1] = sl
+		return sl
+	}
+}
+
 type GDBad struct {
 	Name string
 	C    chan int
@@ -78,5 +106,10 @@ func badValues() map[string]any {
 		"map-func":      map[string]any{"ok": 1, "c": func() {}},
 		"ptr-chan":      gdPtr(make(chan int)),
 		"deep":          map[string]any{"a": []any{GDBad{Name: "y"}}},
+		// values that contain themselves have no finite shape: an error, not a crash
+		"cyclic-pointer":      gdCycle("ptr"),
+		"cyclic-two-pointers": gdCycle("ptr2"),
+		"cyclic-map":          gdCycle("map"),
+		"cyclic-slice":        gdCycle("slice"),
 	}
 }
